@@ -8,7 +8,7 @@ Steps (everything in a scratch worktree, never in /repo):
   2. apply patch.diff: the pinned test suite must pass as on the baseline, demo.py must exit 1
   3. undo the patch
   4. run the registered checks (own property first, then the others unless --props is given) against a
-     scratch copy of the worktree's src with the patch applied (tools/run_mutant.py)
+     scratch copy of /repo's current src with the patch applied (tools/run_mutant.py)
   5. with --keep-as, copy patch.diff, demo.py, notes.md and a meta.json into /verif/<keep-as>/
 """
 import argparse
@@ -76,7 +76,7 @@ def main() -> int:
     details = {}
     for pid in props:
         rc, out = sh([sys.executable, os.path.join(ROOT, "tools", "run_mutant.py"), os.path.abspath(patch), pid,
-                      "--repo", wt, "--tier", args.tier], timeout=3600)
+                      "--repo", "/repo", "--tier", args.tier], timeout=3600)
         hit = "CAUGHT-BY: %s" % pid in out
         clause = [l.strip() for l in out.splitlines() if "clause:" in l]
         harness = [l.strip() for l in out.splitlines() if "HARNESS" in l]
